@@ -28,7 +28,7 @@ RULE = ("complete enumeration of %d configurations: edge kind (odometry, landmar
 NBIND = {"quick": 1200, "thorough": 40000}
 PLAN = {
     "quick": {"cases": NCOMBO + NBIND["quick"], "soft_s": 100, "min_nontrivial": NCOMBO, "require": ["eval:accept-iff-consistent", "eval:bound-by-id", "eval:accepted-edge-usable", "consistent_configurations",
-                                                                                  "inconsistent_configurations", "edge_prebound:named", "edge_prebound:stale", "lookalike_pairs", "file_binding_cases", "contiguous_id_range_listed_out_of_order", "empty_vertex_list_with_bound_edges"]},
+                                                                                  "inconsistent_configurations", "edge_prebound:named", "edge_prebound:stale", "lookalike_pairs", "file_binding_cases", "contiguous_id_range_listed_out_of_order", "empty_vertex_list_with_bound_edges", "unbound_edge_is_valid_queries"]},
     "thorough": {"cases": NCOMBO * 12 + NBIND["thorough"], "soft_s": 1200, "min_nontrivial": NCOMBO * 12, "require": ["eval:accept-iff-consistent", "eval:bound-by-id", "eval:accepted-edge-usable",
                                                                                                 "consistent_configurations", "inconsistent_configurations"]},
 }
@@ -274,6 +274,15 @@ def run_case(ctx, i, rng):
     if debug_logging:
         ctx.count("constructed_with_debug_logging_enabled")
     ctx.count("edge_prebound:%s" % prebound)
+    if pre is None and i % 7 == 0:
+        # an edge that is not attached to any vertex yet is simply "not valid": the question is answered with False, not with an exception
+        try:
+            unbound_ok = e.is_valid() is False or e.is_valid() == False  # noqa: E712 (numpy bools)
+            why_u = None
+        except Exception as ex:  # noqa: BLE001
+            unbound_ok, why_u = False, type(ex).__name__
+        ctx.check("accept-iff-consistent", unbound_ok, {"where": "is_valid() of an edge not yet attached to vertices"}, {"raised": why_u}, {"configuration": {"edge": kind, "endpoints": list(ep)}})
+        ctx.count("unbound_edge_is_valid_queries")
     exp = consistent(*cfg)
     ctx.count("consistent_configurations" if exp else "inconsistent_configurations")
     feats = {"prebound": prebound, "ids_container": container, "debug_logging": debug_logging, "edge": kind, "endpoints": "-".join(ep), "estimate": est, "offset": off, "info": "x".join(str(n) for n in info), "ids_present": present, "expected_consistent": exp}
